@@ -1455,6 +1455,20 @@ func c04j(c *Ctx) {
 			changed = false
 			ast.Inspect(f.Body, func(n ast.Node) bool {
 				as, ok := n.(*ast.AssignStmt)
+				if ok && len(as.Lhs) == len(as.Rhs) {
+					// a plain copy dst = src of a local slice into a feeding slice
+					for i := range as.Lhs {
+						if !feeds[objOf(info, as.Lhs[i])] {
+							continue
+						}
+						if id, isId := ast.Unparen(as.Rhs[i]).(*ast.Ident); isId {
+							if src := objOf(info, id); src != nil && isLocal(src) && !feeds[src] {
+								feeds[src] = true
+								changed = true
+							}
+						}
+					}
+				}
 				if !ok || len(as.Lhs) != 1 || len(as.Rhs) != 1 || !feeds[objOf(info, as.Lhs[0])] {
 					return true
 				}
@@ -1651,8 +1665,13 @@ func c04l(c *Ctx) {
 		ce := objOf(info, compositeField(info, cl, "ContentEncoding", -1))
 		okCE := false
 		if ce != nil {
-			for _, d := range f.Defs(ce) {
-				if d.Kind != DefAssign || d.Rhs == nil {
+			for _, d := range f.SourceDefs(ce) {
+				if d.Kind == DefZero {
+					continue
+				}
+				if d.Kind != DefAssign || d.Rhs == nil || d.Idx >= 0 {
+					okCE = false
+					p = append(p, "Content-Encoding can be something other than gzip")
 					continue
 				}
 				if s, isS := constString(info, unwrap(d.Rhs)); isS && s == "gzip" {
